@@ -267,6 +267,14 @@ fn shape_set(thorough: bool) -> Vec<Vec<Seg>> {
     v.push(vec![Seg::C(300_000)]);
     v.push(vec![Seg::X(300_000)]);
     v.push(vec![Seg::C(280_000), Seg::R(10_000), Seg::D(4000, 9000)]);
+    // matches at (and just below) the maximum distance at every position, across window moves: the only earlier
+    // occurrence of every 4-byte group is exactly dict-k back, so the bytes kept before the read position after a
+    // move are needed to their full extent (k = 0 is the maximum distance of the stream)
+    for (d, total) in [(4096usize, 300_000usize), (65536, 450_000)] {
+        for k in [0usize, 1, 15, 16, 17] {
+            v.push(vec![Seg::R(d - k), Seg::D(d - k, total)]);
+        }
+    }
     // incompressible data across a window move (uncompressed chunks need history before the dictionary)
     v.push(vec![Seg::R(300_000)]);
     v.push(vec![Seg::C(270_000), Seg::R(70_000)]);
